@@ -312,7 +312,7 @@ func c13Variants(m *vPos, sch vMappingSchema) (own []string, other []string) {
 		"uses": "uses: actions/checkout@v4", "with": "with: {x: y}",
 	}
 	jobValues := map[string]string{
-		"runs-on": "runs-on: ubuntu-latest", "steps": "steps: [{run: echo}]", "env": "env: {A: b}", "container": "container: img",
+		"runs-on": "runs-on: ubuntu-latest", "steps": "steps: [{run: echo, zzinner: 1}]", "env": "env: {A: b}", "container": "container: img",
 		"services": "services: {s: {image: i}}", "defaults": "defaults: {run: {shell: bash}}", "timeout-minutes": "timeout-minutes: 5",
 		"continue-on-error": "continue-on-error: true", "outputs": "outputs: {a: b}", "environment": "environment: prod",
 		"uses": "uses: o/r/.github/workflows/w.yml@v1", "with": "with: {a: b}", "secrets": "secrets: {a: b}",
@@ -427,6 +427,19 @@ func c13Verdict(r *vReport, errs []*Error, rp map[string]any, npath string) {
 		}
 		if !found {
 			r.Violation("other-variant-key-not-reported:"+npath+":"+key, fmt.Sprintf("%s: key %q belongs to the other variant of this mapping (%s) but neither it (line %d) nor a conflicting key of this variant is reported; diagnostics: %s", where, key, kind, expLine, vTrunc(fmt.Sprint(ds), 400)), rp)
+		}
+		if key == "steps" && npath == "jobs.*" {
+			// the steps: added to a call job hold a step with a foreign key of its own (zzinner): rejecting
+			// the section as a whole does not hide what is wrong inside it
+			inner := false
+			for _, d := range ds {
+				if strings.Contains(d.Msg, "zzinner") {
+					inner = true
+				}
+			}
+			if !inner {
+				r.Violation("inner-defect-of-other-variant-key-hidden:"+npath+":"+key, fmt.Sprintf("%s: steps: added to a job that calls a reusable workflow (%s): the foreign key inside its step is not reported; diagnostics: %s", where, kind, vTrunc(fmt.Sprint(ds), 400)), rp)
+			}
 		}
 	case strings.HasPrefix(kind, "dup"):
 		found := false
